@@ -1,13 +1,17 @@
 #!/bin/bash
-# Rebuilds the single simulation test binary from /repo's current working tree.
+# Rebuilds the single simulation test binary from the repository's current working tree
+# (VERIF_REPO, default /repo) with hooks enabled (-tags verif) and the runtime overlay.
 set -euo pipefail
 cd /verif
 . bin/env.sh
 mkdir -p .build
 [ -d .third_party/util ] || { echo "build: run bin/setup.sh first" >&2; exit 2; }
-cp -f "$VERIF_REPO/go.sum" sim/go.sum
 [ -f .build/overlay/overlay.json ] || bin/gen_overlay.py >/dev/null
+OUT=${1:-${VERIF_BIN:-/verif/.build/sim.test}}
+TAG=$(echo "$VERIF_REPO" | md5sum | cut -c1-8)
+MODFILE=/verif/.build/go.$TAG.mod
+sed "s#=> /repo\$#=> $VERIF_REPO#" sim/go.mod > "$MODFILE"
+cp -f "$VERIF_REPO/go.sum" "/verif/.build/go.$TAG.sum"
 cd sim
-OUT=${1:-/verif/.build/sim.test}
-$VERIF_GO test -c -tags verif -vet=off -overlay /verif/.build/overlay/overlay.json -o "$OUT" .
+$VERIF_GO test -c -modfile="$MODFILE" -tags verif -vet=off -overlay /verif/.build/overlay/overlay.json -o "$OUT" .
 echo "$OUT"
